@@ -9,14 +9,16 @@
 (*   start : the constructor returned (ok) or raised                                 *)
 (*   ret   : a call of the driver (save / change / writeinit) returned               *)
 (*   reload: loadParameters() returned                                               *)
+(*   reset : factory_reset returned                                                  *)
+(*   env   : the environment removed the persistent directory under the process      *)
 (* classes of the target file: "absent" | "c:<snapshot id>" | "partial"              *)
 EXTENDS Naturals, Sequences, TLC, TLCExt, Json, IOUtils
 
 CONSTANT DevBelieveEarly     \* TRUE: accept the recorded deviation Dev_BelieveEarly (known finding)
 
 P == INSTANCE Persistent WITH Params <- {}, Vals <- {}, NChunks <- 1, AutoChoices <- {}, HwChoices <- {},
-        Faults <- {}, Corruptions <- {}, Dev <- {}, disk <- 0, alive <- FALSE, kind <- 0, val <- 0,
-        believed <- 0, wd <- 0, pc <- 0, sv <- 0
+        NoDefChoices <- {}, CfgVals <- {}, Faults <- {}, Corruptions <- {}, Dev <- {}, disk <- 0, alive <- FALSE,
+        kind <- 0, val <- 0, believed <- 0, wd <- 0, pc <- 0, sv <- 0, init <- 0, fval <- 0, err <- 0, tampered <- FALSE
 
 Traces == JsonDeserialize(IOEnv.TRACE_FILE)
 NT == Len(Traces)
@@ -25,7 +27,8 @@ ASSUME \A i \in 1 .. NT : TLCSet(i, 1) /\ TLCSet(NT + i, "")
 
 Ev == Traces[t][l]
 
-S0 == [target |-> "absent", alive |-> FALSE, tk |-> FALSE, tv |-> <<>>, file |-> <<>>, bel |-> ""]
+S0 == [target |-> "absent", alive |-> FALSE, tk |-> FALSE, tv |-> <<>>, file |-> <<>>, bel |-> "",
+       init |-> <<>>, tampered |-> FALSE]
 
 (* ---- clauses: <<name, holds>> evaluated on the state before the event ---- *)
 FsClauses(e) ==
@@ -37,15 +40,23 @@ BootClauses(e) ==
      \* restart after a completed save: every stored entry stands for the value that was in memory
      <<"RoundTrip", (s.tk /\ e.pre = s.target) => \A p \in DOMAIN e.file : e.file[p] = s.tv[p]>> >>
 
+(* a default given in the configuration is a default; the declared one (or the datatype's) applies otherwise *)
+DefOf(e, p) == IF e.cdef[p] # P!NoVal THEN e.cdef[p] ELSE e.def[p]
 StartClauses(e) ==
   << <<"Tolerant.startup", e.ok>>,
-     <<"Values", e.ok => \A p \in DOMAIN e.got : e.got[p] = P!Expected(e.cfg[p], s.file[p], e.def[p])>>,
+     <<"Values", e.ok => \A p \in DOMAIN e.got : e.got[p] = P!Expected(e.cfg[p], s.file[p], DefOf(e, p))>>,
+     \* only a parameter that got its value from nowhere may still be flagged "not initialized"
+     <<"Restored.readable", e.ok => \A p \in DOMAIN e.err : e.err[p] =>
+           (e.nodef[p] /\ e.cfg[p] = P!NoVal /\ e.cdef[p] = P!NoVal /\ s.file[p] \in {P!NoVal, P!Bad})>>,
+     \* entries of the file under foreign keys never reach the module
+     <<"Foreign", e.ok => \A q \in DOMAIN e.fgot : e.fgot[q] = "v0">>,
      <<"Consistent", e.target = s.target>>,
      <<"Retry.believed", e.ok => P!SkipOK(e.skip, e.target, e.cur)>> >>
 
 (* Dev_BelieveEarly (known finding, only with DevBelieveEarly = TRUE): the snapshot of a save that *)
 (* failed stays "believed" (s.bel) and saving it is skipped until another snapshot is saved       *)
-Stale(e) == DevBelieveEarly /\ e.skip /\ (e.faults > 0 \/ s.bel = e.cur)
+Stale(e) == \/ DevBelieveEarly /\ e.skip /\ (e.faults > 0 \/ s.bel = e.cur)
+            \/ s.tampered          \* the module cannot know what the environment removed
 RetClauses(e) ==
   << <<"Consistent", e.target = s.target>>,
      <<"Retry.saved", (e.must /\ e.faults = 0 /\ e.out # "crash") => (e.target = e.cur \/ Stale(e))>>,
@@ -54,13 +65,22 @@ RetClauses(e) ==
 (* loadParameters() in a running module: usable stored entries replace the values, others stay *)
 ReloadClauses(e) ==
   << <<"Consistent", e.target = s.target>>,
-     <<"Reload.values", e.ok => \A p \in DOMAIN e.got : e.got[p] = P!Expected(P!NoVal, e.file[p], e.before[p])>> >>
+     <<"Reload.values", e.ok => \A p \in DOMAIN e.got : e.got[p] = P!Expected(P!NoVal, e.file[p], e.before[p])>>,
+     <<"Foreign", e.ok => e.fgot = e.fbefore>> >>
+
+(* factory_reset: the values of configuration / declaration, whatever the file says *)
+ResetClauses(e) ==
+  << <<"Consistent", e.target = s.target>>,
+     <<"Reset.values", e.ok => \A p \in DOMAIN e.got : e.got[p] = s.init[p]>>,
+     <<"Retry.believed", e.out # "crash" => (P!SkipOK(e.skip, e.target, e.cur) \/ Stale(e))>> >>
 
 Clauses(e) == CASE e.ev = "fs" -> FsClauses(e)
                 [] e.ev = "boot" -> BootClauses(e)
                 [] e.ev = "start" -> StartClauses(e)
                 [] e.ev = "ret" -> RetClauses(e)
                 [] e.ev = "reload" -> ReloadClauses(e)
+                [] e.ev = "reset" -> ResetClauses(e)
+                [] e.ev = "env" -> << <<"Env", e.what = "wipe" /\ e.target = "absent">> >>
                 [] OTHER -> << <<"unknown event", FALSE>> >>
 
 FirstBad(cl) == LET bad == SelectSeq(cl, LAMBDA c : ~c[2]) IN IF bad = <<>> THEN "" ELSE bad[1][1]
@@ -68,13 +88,17 @@ FirstBad(cl) == LET bad == SelectSeq(cl, LAMBDA c : ~c[2]) IN IF bad = <<>> THEN
 (* ---- state update ---- *)
 Nxt(e) ==
   CASE e.ev = "fs" ->
-         IF e.target # s.target THEN [s EXCEPT !.target = e.target, !.tk = TRUE,
+         IF e.target # s.target THEN [s EXCEPT !.target = e.target, !.tk = TRUE, !.tampered = FALSE,
                                                !.tv = IF "vals" \in DOMAIN e THEN e.vals ELSE <<>>] ELSE s
     [] e.ev = "boot" ->
-         [s EXCEPT !.target = e.pre, !.alive = FALSE, !.file = e.file, !.bel = "",
+         [s EXCEPT !.target = e.pre, !.alive = FALSE, !.file = e.file, !.bel = "", !.tampered = FALSE,
                    !.tk = (s.tk /\ e.pre = s.target)]
-    [] e.ev = "start" -> [s EXCEPT !.alive = TRUE]
-    [] e.ev = "reload" -> [s EXCEPT !.alive = (e.out # "crash"), !.bel = ""]
+    [] e.ev = "start" -> [s EXCEPT !.alive = TRUE,
+                                   !.init = [p \in DOMAIN e.cfg |-> P!Expected(e.cfg[p], P!NoVal, DefOf(e, p))]]
+    [] e.ev = "env" -> [s EXCEPT !.target = e.target, !.tk = FALSE, !.tampered = TRUE]
+    [] e.ev = "reset" -> [s EXCEPT !.alive = (e.out # "crash"),
+                                   !.bel = IF e.out = "crash" THEN "" ELSE IF e.skip THEN e.cur ELSE s.bel]
+    [] e.ev = "reload" -> [s EXCEPT !.alive = (e.out # "crash"), !.bel = "", !.tampered = FALSE]
     [] e.ev = "ret" -> [s EXCEPT !.alive = (e.out # "crash"),
                                  !.bel = IF e.out = "crash" THEN "" ELSE IF e.skip THEN e.cur ELSE s.bel]
 
